@@ -1,7 +1,6 @@
 ---- MODULE MC_Determinism ----
 EXTENDS Determinism
-AllLeakSets == SUBSET Dims
-NoLeak == {{}}
+AllLeakSets == AllLeaks
 ASSUME AllValuesOccur(QuickPlan)
 ASSUME AllValuesOccur(ThoroughPlan)
 ASSUME PairwiseCovering(ThoroughPlan)
